@@ -546,5 +546,8 @@ PROPS["C17"]["rules"] = PROPS["C17"]["rules"] + [rules_ref.rule_newref_same_tag]
 PROPS["C17"]["explanation"] += " (NEWREFTAG) a reference allocated with Htagnewref for a tag is used to create an element of that same tag, so a new object never takes the tag/ref of a live one."
 PROPS["C12"]["rules"] = PROPS["C12"]["rules"] + [rules_ref.rule_newref_same_tag]
 
+PROPS["C13"]["rules"] = PROPS["C13"]["rules"] + [rules_handles.rule_borrowed_accrec_not_released]
+PROPS["C13"]["explanation"] += " (ACCRECOWN) a routine releases an access record it looked up from a caller's id only together with that id."
+
 NOT_APPLICABLE = {}
 
